@@ -12,8 +12,10 @@
        renderer and the registered generators; every output is a trace (one character /
        one line per step) that TLC accepts or rejects; the statement counts of an
        accepted text are compared with the classes / objects of the model.
-Calibration: on the whole corpus the recogniser's verdict equals the exit status of
-       `dot -Tcanon` (a disagreement is a machinery failure).
+Calibration: `dot -Tcanon` is the ground truth for validity.  DotLex rejecting a text
+       that dot accepts is a machinery failure (the recogniser is never stricter than
+       Graphviz); dot rejecting a text that DotLex accepts is a VIOLATION.
+An exporter that raises is a VIOLATION as well.
 A rejected output is explained by a listed deviation clause of DotExport.tla iff TLC
        predicts the defect for a field of that model and re-exporting the model with
        exactly those fields neutralised gives a well-formed output that differs from
@@ -174,65 +176,78 @@ class Corpus:
 
 
 def export_all(corpus, rng, quick):
-    """Run every exporter; returns (dot outputs, puml outputs): {id: dict(path, text, what, ...)}."""
+    """Run every exporter; returns (dot outputs, puml outputs): {id: dict(path, text | crash, what, ...)}.
+    An exporter that raises is recorded (crash=...): that is a verdict about the exporter, not a harness error."""
     from textx import generators as gens
     from textx.export import PlantUmlRenderer, metamodel_export, model_export
     root = corpus.root
     dots, pumls = {}, {}
+
+    def run(table, key, path, what, call, **info):
+        d = dict(path=path, what=what, **info)
+        os.makedirs(os.path.dirname(path), exist_ok=True)
+        try:
+            call()
+            d["text"] = drv.read(path)
+        except Exception as e:      # noqa: BLE001 -- the exporter under test failed
+            d["crash"] = f"{type(e).__name__}: {e}"
+        table[key] = d
+
     for kind, mm in corpus.mms.items():
         cnt = drv.mm_counts(mm)
         p = os.path.join(root, "out", f"mm_{kind}.dot")
-        os.makedirs(os.path.dirname(p), exist_ok=True)
-        metamodel_export(mm, p)
-        dots[f"mm:{kind}"] = dict(path=p, what="metamodel_export", kind=kind, counts=cnt)
-        p = os.path.join(root, "out", f"mm_{kind}.pu")
-        metamodel_export(mm, p, renderer=PlantUmlRenderer())
-        pumls[f"pu:{kind}"] = dict(path=p, what="metamodel_export(PlantUmlRenderer)", kind=kind, counts=cnt)
-        p = os.path.join(root, "out", f"mm_{kind}_ortho.pu")
-        metamodel_export(mm, p, renderer=PlantUmlRenderer(linetype="ortho"))
-        pumls[f"puo:{kind}"] = dict(path=p, what="metamodel_export(PlantUmlRenderer(ortho))", kind=kind, counts=cnt)
+        run(dots, f"mm:{kind}", p, "metamodel_export", lambda: metamodel_export(mm, p), kind=kind, counts=cnt)
+        p2 = os.path.join(root, "out", f"mm_{kind}.pu")
+        run(pumls, f"pu:{kind}", p2, "metamodel_export(PlantUmlRenderer)",
+            lambda: metamodel_export(mm, p2, renderer=PlantUmlRenderer()), kind=kind, counts=cnt)
+        p3 = os.path.join(root, "out", f"mm_{kind}_ortho.pu")
+        run(pumls, f"puo:{kind}", p3, "metamodel_export(PlantUmlRenderer(ortho))",
+            lambda: metamodel_export(mm, p3, renderer=PlantUmlRenderer(linetype="ortho")), kind=kind, counts=cnt)
         # registered generators, called directly: (metamodel, model, output_path, overwrite, debug)
         gd = os.path.join(root, "gen", kind)
         os.makedirs(gd, exist_ok=True)
-        gens.metamodel_generate_dot.generator(None, mm, gd, True, False)
-        dots[f"gmm:{kind}"] = dict(path=os.path.join(gd, f"{kind}.dot"), what="generator textX->dot", kind=kind, counts=cnt)
-        gens.metamodel_generate_plantuml.generator(None, mm, gd, True, False)
-        pumls[f"gpu:{kind}"] = dict(path=os.path.join(gd, f"{kind}.pu"), what="generator textX->PlantUML", kind=kind, counts=cnt)
+        run(dots, f"gmm:{kind}", os.path.join(gd, f"{kind}.dot"), "generator textX->dot",
+            lambda: gens.metamodel_generate_dot.generator(None, mm, gd, True, False), kind=kind, counts=cnt)
+        run(pumls, f"gpu:{kind}", os.path.join(gd, f"{kind}.pu"), "generator textX->PlantUML",
+            lambda: gens.metamodel_generate_plantuml.generator(None, mm, gd, True, False), kind=kind, counts=cnt)
     for m in corpus.models:
         p = os.path.join(root, "out", f"m_{m['id']}.dot")
-        model_export(m["model"], p)
-        dots[f"m:{m['id']}"] = dict(path=p, what="model_export", kind=m["kind"], model=m)
+        run(dots, f"m:{m['id']}", p, "model_export", lambda: model_export(m["model"], p), kind=m["kind"], model=m)
         if rng.random() < (0.25 if quick else 0.5):
             gd = os.path.join(root, "gen", "models")
             os.makedirs(gd, exist_ok=True)
-            gens.model_generate_dot.generator(corpus.mms[m["kind"]], m["model"], gd, True, False)
-            dots[f"gm:{m['id']}"] = dict(path=os.path.join(gd, f"{m['id']}.dot"), what="generator any->dot",
-                                         kind=m["kind"], model=m)
-    for d in list(dots.values()) + list(pumls.values()):
-        if not os.path.exists(d["path"]):
-            raise tlc.MachineryError(f"{d['what']} wrote no file {d['path']}")
-        d["text"] = drv.read(d["path"])
+            run(dots, f"gm:{m['id']}", os.path.join(gd, f"{m['id']}.dot"), "generator any->dot",
+                lambda: gens.model_generate_dot.generator(corpus.mms[m["kind"]], m["model"], gd, True, False),
+                kind=m["kind"], model=m)
     return dots, pumls
 
 
 def expected_dot(d):
-    """Counts a well-formed export of this model / meta-model must have (projection of the model side)."""
+    """Counts a well-formed export of this model / meta-model must have (projection of the model side).
+    ids: distinct identifiers of node statements; extra: optional further nodes (the built-in OBJECT class);
+    plain: nodes without a record label (the table of match rules)."""
     if "model" in d:
         n = len(drv.model_objects(d["model"]["model"]))
-        return dict(nodes=n, bars=n)
+        return dict(ids=n, extra=0, plain=0, exact=True)
     c = d["counts"]
-    return dict(nodes=len(c["classes"]) + (1 if c["match"] else 0), bars=len(c["classes"]))
+    plain = 1 if c["match"] else 0
+    return dict(ids=len(c["classes"]) + plain, extra=1 if c["has_object"] else 0, plain=plain, exact=False)
 
 
 def dot_ok(res, exp):
-    return bool(res["accept"]) and res["nodes"] == exp["nodes"] and res["bars"] == exp["bars"]
+    if not res["accept"] or not exp["ids"] <= res["nids"] <= exp["ids"] + exp["extra"]:
+        return False
+    if exp["exact"] and res["nodes"] != exp["ids"]:
+        return False          # a model object is drawn once
+    return res["bars"] == res["nodes"] - exp["plain"]      # one record separator per class / object node
 
 
 def describe(res, exp):
     if not res["accept"]:
         return f"rejected by DotLex: {res['err']} at character {res['at']}"
-    return (f"accepted but shows {res['nodes']} node statements / {res['bars']} record separators where the model "
-            f"has {exp['nodes']} / {exp['bars']}")
+    return (f"accepted but shows {res['nids']} distinct nodes in {res['nodes']} node statements with {res['bars']} record "
+            f"separators where the model has {exp['ids']}" + (f" (+{exp['extra']} optional)" if exp["extra"] else "") +
+            " nodes with one separator each")
 
 
 # ------------------------------------------------------------------ counterfactual: neutralise fields, export again
@@ -273,15 +288,19 @@ def run(rep):
     quick = rep.tier == "quick"
     rng = random.Random(rep.seed)
     rep.rule = ("Every output of metamodel_export (DOT and PlantUML renderer, with and without linetype), model_export "
-                "and the three registered generators over a corpus of 7 carrier grammars (abstract / match / common "
-                "rules, attributes of every multiplicity, references, unicode rule names, multi-file models) and seeded-random models whose "
+                "and the three registered generators over a corpus of 8 carrier grammars (abstract / match / common "
+                "rules, attributes of every multiplicity, references, OBJECT-typed attributes, match rules with & < > and "
+                "quotes in regexes and literals, unicode rule names, multi-file models) and seeded-random models whose "
                 "names and string values range over quote, backslash, braces, pipe, angle brackets, newline, '?', "
                 "unicode and strings longer than the 20-character cut of dot_repr, with lists mixing objects and "
                 "primitive values. Each output is a TLC trace of DotLex / Puml; counts of an accepted text are compared "
                 "with the classes / objects. Non-trivial: outputs of models with >= 2 objects or a special character, "
                 "and every meta-model output; distinct by (exporter, grammar, model text).")
     rep.assumptions = [
-        "HTML-like labels are recognised as balanced <...> only; their inner XML is left to Graphviz (calibration)",
+        "of the XML inside HTML-like labels the module checks closed tags and well-formed entities; the rest is "
+        "decided by Graphviz: an output that `dot -Tcanon` rejects is a VIOLATION even if DotLex accepts it",
+        "the built-in OBJECT class may be shown (also repeatedly) when an attribute has that type; classes may be "
+        "declared more than once in PlantUML",
         "attribute defaults set by `node [...]` are taken as global (the exporter never sets them inside a subgraph)",
         "file names of models are plain (no quotes): the cluster label of multi-file exports is not stressed",
         "a record label must keep exactly one field separator per node (`{name|attributes}`), so an unescaped `|` counts as malformed",
@@ -317,8 +336,8 @@ def run(rep):
         dots, pumls = export_all(corpus, rng, quick)
         with ThreadPoolExecutor(max_workers=3) as ex:
             f1 = ex.submit(predict, cases, "")
-            f2 = ex.submit(dot_traces, {i: d["text"] for i, d in dots.items()})
-            f3 = ex.submit(puml_traces, {i: d["text"] for i, d in pumls.items()})
+            f2 = ex.submit(dot_traces, {i: d["text"] for i, d in dots.items() if "text" in d})
+            f3 = ex.submit(puml_traces, {i: d["text"] for i, d in pumls.items() if "text" in d})
             (got, st), (dres, m2), (pres, m3) = f1.result(), f2.result(), f3.result()
         rep.add_oracle("MC_Dot_Oracle[escaped,repr]", st)
         rep.add_mc("TraceDot", m2, ["DotLex!Step consumes the text; Accepting at the end"])
@@ -331,30 +350,45 @@ def run(rep):
             else:
                 rep.violation(case, f"{fn}({s!r}) = {e!r}: a node label containing it is not accepted by DotLex "
                                     f"(record label / quoting broken)")
-        # ---------------- calibration
+        # ---------------- crashed exports
+        for d in list(dots.values()) + list(pumls.values()):
+            if "crash" in d:
+                rep.violation(_replay_case(d), f"{d['what']} of {'a model of ' if 'model' in d else ''}grammar {d['kind']} "
+                                               f"raised {d['crash']}")
+        dots = {i: d for i, d in dots.items() if "text" in d}
+        pumls = {i: d for i, d in pumls.items() if "text" in d}
+        # ---------------- calibration: Graphviz is the ground truth for validity.  DotLex must never be
+        # stricter (it rejects, dot accepts: machinery failure); a text DotLex accepts but dot rejects is
+        # an invalid export that the module is too coarse to see (e.g. the XML inside an HTML-like label)
+        dot_rejects = {}
         if dot_available():
             dv = dot_verdicts({i: d["path"] for i, d in dots.items()})
-            bad = [(i, dres[i]["accept"], dv[i]) for i in dots if bool(dres[i]["accept"]) != dv[i][0]]
-            if bad:
-                i, acc, (ok, msg) = bad[0]
+            strict = [(i, dv[i]) for i in dots if not dres[i]["accept"] and dv[i][0]]
+            if strict:
+                i, (ok, msg) = strict[0]
                 keep = os.path.join(common.REPLAYS, PID)
                 os.makedirs(keep, exist_ok=True)
                 shutil.copy(dots[i]["path"], os.path.join(keep, "calibration_disagreement.dot"))
                 raise tlc.MachineryError(
-                    f"calibration: DotLex {'accepts' if acc else 'rejects (' + dres[i]['err'] + ')'} {i} but "
-                    f"`dot -Tcanon` exits {'0' if ok else 'non-zero: ' + msg}; {len(bad)} disagreement(s); "
-                    f"text kept in replays/{PID}/calibration_disagreement.dot")
-            rep.extra["calibration"] = dict(tool=DOT, outputs=len(dots), agreed=len(dots),
-                                            rejected_by_both=sum(1 for i in dots if not dv[i][0]))
+                    f"calibration: DotLex rejects ({dres[i]['err']} at {dres[i]['at']}) {i} but `dot -Tcanon` exits 0; "
+                    f"{len(strict)} such text(s); kept in replays/{PID}/calibration_disagreement.dot")
+            dot_rejects = {i: dv[i][1] for i in dots if dres[i]["accept"] and not dv[i][0]}
+            rep.extra["calibration"] = dict(tool=DOT, outputs=len(dots),
+                                            agreed=len(dots) - len(dot_rejects),
+                                            rejected_by_both=sum(1 for i in dots if not dv[i][0] and not dres[i]["accept"]),
+                                            rejected_by_dot_only=len(dot_rejects),
+                                            rule="DotLex rejecting what dot accepts is a machinery failure; dot rejecting "
+                                                 "what DotLex accepts is a VIOLATION (Graphviz decides validity)")
         else:
             rep.extra["calibration"] = "skipped: /usr/bin/dot is not available"
             rep.note("calibration against Graphviz skipped (dot not installed)")
         # ---------------- verdicts: PlantUML
         for i, d in pumls.items():
             r, c = pres[i], d["counts"]
-            names = sorted("".join(chr(x) for x in n) for n in r["names"])
+            names = sorted({"".join(chr(x) for x in n) for n in r["names"]})
             case = dict(export=d["what"], grammar=d["kind"], classes=c["classes"])
-            if r["accept"] and r["classes"] == len(c["classes"]) and names == sorted(c["classes"]):
+            allowed = set(c["classes"]) | ({"OBJECT"} if c["has_object"] else set())
+            if r["accept"] and set(c["classes"]) <= set(names) <= allowed:
                 rep.passed(case, nontrivial=True)
             else:
                 rep.violation(dict(kind="puml", grammar=d["kind"], what=d["what"], text=d["text"], expected=c["classes"]),
@@ -365,8 +399,11 @@ def run(rep):
         failing = []
         for i, d in dots.items():
             exp = expected_dot(d)
-            if dot_ok(dres[i], exp):
-                big = "model" not in d or exp["nodes"] >= 2 or any(c in d["model"]["text"] for c in '{}|<>\\')
+            if i in dot_rejects:
+                rep.violation(_replay_case(d), f"{d['what']} of grammar {d['kind']}: `dot -Tcanon` rejects the output "
+                                               f"({dot_rejects[i].strip()[:160]}) although DotLex accepts it")
+            elif dot_ok(dres[i], exp):
+                big = "model" not in d or exp["ids"] >= 2 or any(c in d["model"]["text"] for c in '{}|<>\\')
                 rep.passed(_brief(d, exp), nontrivial=big)
             elif "model" in d:
                 failing.append(i)
@@ -386,12 +423,12 @@ def run(rep):
 
 def _brief(d, exp):
     if "model" in d:
-        return dict(export=d["what"], grammar=d["kind"], model=d["model"]["text"][:300], nodes=exp["nodes"])
-    return dict(export=d["what"], grammar=d["kind"], nodes=exp["nodes"])
+        return dict(export=d["what"], grammar=d["kind"], model=d["model"]["text"][:300], nodes=exp["ids"])
+    return dict(export=d["what"], grammar=d["kind"], nodes=exp["ids"])
 
 
 def _replay_case(d):
-    c = dict(kind="dot", what=d["what"], grammar=d["kind"])
+    c = dict(kind="puml" if "PlantUML" in d["what"] or "PlantUml" in d["what"] else "dot", what=d["what"], grammar=d["kind"])
     if "model" in d:
         c["model"] = d["model"]["text"]
         if d["model"].get("lib"):
@@ -485,31 +522,37 @@ def replay(path):
         mm = load_mm(case["grammar"], os.path.join(root, "g.tx"))
         cnt = drv.mm_counts(mm)
         out = os.path.join(root, "out.txt")
+        try:
+            if case["kind"] == "puml":
+                metamodel_export(mm, out, renderer=PlantUmlRenderer())
+            elif "model" in case:
+                if case.get("lib"):
+                    drv.write(os.path.join(root, case["model"].split('"')[1]), case["lib"])
+                model = mm.model_from_file(drv.write(os.path.join(root, "m.model"), case["model"]))
+                model_export(model, out)
+                d = dict(model=dict(model=model))
+            else:
+                metamodel_export(mm, out)
+                d = dict(counts=cnt)
+        except Exception as e:      # noqa: BLE001
+            print(f"the export raised {type(e).__name__}: {e}")
+            return 1
         if case["kind"] == "puml":
-            metamodel_export(mm, out, renderer=PlantUmlRenderer())
             res, _ = puml_traces({"x": drv.read(out)})
             r = res["x"]
-            names = sorted("".join(chr(x) for x in n) for n in r["names"])
+            names = sorted({"".join(chr(x) for x in n) for n in r["names"]})
             print(drv.read(out))
             print("Puml:", r["accept"], r["err"], "declared", names, "expected", cnt["classes"])
-            return 0 if r["accept"] and names == sorted(cnt["classes"]) else 1
-        if "model" in case:
-            if case.get("lib"):
-                drv.write(os.path.join(root, case["model"].split('"')[1]), case["lib"])
-            model = mm.model_from_file(drv.write(os.path.join(root, "m.model"), case["model"]))
-            model_export(model, out)
-            d = dict(model=dict(model=model))
-        else:
-            metamodel_export(mm, out)
-            d = dict(counts=cnt)
+            allowed = set(cnt["classes"]) | ({"OBJECT"} if cnt["has_object"] else set())
+            return 0 if r["accept"] and set(cnt["classes"]) <= set(names) <= allowed else 1
         text = drv.read(out)
         res, _ = dot_traces({"x": text})
         exp = expected_dot(d)
         print(text)
         print("DotLex:", res["x"], "expected", exp)
-        if dot_available():
-            print("dot -Tcanon:", dot_verdicts({"x": out})["x"])
-        return 0 if dot_ok(res["x"], exp) else 1
+        dv = dot_verdicts({"x": out})["x"] if dot_available() else (True, "")
+        print("dot -Tcanon:", dv)
+        return 0 if dot_ok(res["x"], exp) and dv[0] else 1
     finally:
         shutil.rmtree(root, ignore_errors=True)
 
